@@ -537,7 +537,10 @@ class SCML_Supervised(_BaseSCML, TransformerMixin):
     """
     X, y = self._prepare_inputs(X, y, dtype=float, ensure_min_samples=2)
 
-    basis, n_basis = self._initialize_basis_supervised(X, y)
+    # unlabeled samples (negative labels) take no part in the constraints,
+    # nor in the construction of the basis
+    labeled = np.asarray(y) >= 0
+    basis, n_basis = self._initialize_basis_supervised(X[labeled], y[labeled])
 
     if not isinstance(self.k_genuine, int):
       raise ValueError("k_genuine should be an integer, instead it is of type"
